@@ -110,6 +110,22 @@ func oracleC18(p *plan.Plan, his []plan.Rec, res *plan.Result) {
 	model := map[string]string{}
 	present := map[string]bool{}
 	handed := map[string]bool{}
+	ever := map[string]map[string]bool{} // every value ever written to a key
+	wrote := func(k, v string) {
+		if ever[k] == nil {
+			ever[k] = map[string]bool{}
+		}
+		ever[k][v] = true
+	}
+	// with asynchronous replication a read may return an older value of the key (two writes reach a
+	// backup in either order): ordering is not what this property is about
+	asyncStale := func(k, v string) bool {
+		if p.Cluster.AsyncReplication && ever[k][v] {
+			res.Counters["oracle.async_stale_reads"]++
+			return true
+		}
+		return false
+	}
 	for i := range recs {
 		r := &recs[i]
 		switch r.Op.K {
@@ -122,6 +138,7 @@ func oracleC18(p *plan.Plan, his []plan.Rec, res *plan.Result) {
 				res.Nontrivial = true
 			}
 			model[r.Op.Key], present[r.Op.Key] = r.Op.Val, true
+			wrote(r.Op.Key, r.Op.Val)
 		case "del":
 			if handed[r.Op.Key] {
 				res.Nontrivial = true
@@ -129,16 +146,17 @@ func oracleC18(p *plan.Plan, his []plan.Rec, res *plan.Result) {
 			present[r.Op.Key] = false
 		case "snap.getput":
 			if r.Err == "" {
-				if r.Has != present[r.Op.Key] || (r.Has && r.Val != model[r.Op.Key]) {
+				if (r.Has != present[r.Op.Key] || (r.Has && r.Val != model[r.Op.Key])) && !(r.Has && asyncStale(r.Op.Key, r.Val)) {
 					viol(res, "wrong-value-read", "getput", "GetPut(%s) returned has=%v %q, the key held present=%v %q", r.Op.Key, r.Has, short(r.Val), present[r.Op.Key], short(model[r.Op.Key]))
 				}
 				model[r.Op.Key], present[r.Op.Key] = r.Op.Val, true
+				wrote(r.Op.Key, r.Op.Val)
 				handed[r.Op.Key] = handed[r.Op.Key] || r.Has
 			}
 		case "snap.get":
 			if r.Err == "" && r.Has {
 				handed[r.Op.Key] = true
-				if r.Val != model[r.Op.Key] {
+				if r.Val != model[r.Op.Key] && !asyncStale(r.Op.Key, r.Val) {
 					viol(res, "wrong-value-read", "get", "Get(%s) returned %q, the key holds %q", r.Op.Key, short(r.Val), short(model[r.Op.Key]))
 				}
 			}
